@@ -173,6 +173,7 @@ type secReq struct {
 	Path   []int
 	Spec   string // Coq spec term
 	Exists bool
+	A, B   int // Want = stored[A:B]
 }
 
 func pathStr(p []int) string {
@@ -201,8 +202,10 @@ func sectionRequests(tree *mimegen.Node, stored []byte, idAt, shift int) []secRe
 		}
 		return p
 	}
-	sl := func(a, b int) []byte { return stored[pos(a):pos(b)] }
-	add := func(path []int, kw string, want []byte, spec string) {
+	type rng struct{ a, b int }
+	sl := func(a, b int) rng { return rng{pos(a), pos(b)} }
+	add := func(path []int, kw string, w rng, spec string) {
+		want := stored[w.a:w.b]
 		sec := pathStr(path)
 		if kw != "" {
 			if sec != "" {
@@ -210,11 +213,11 @@ func sectionRequests(tree *mimegen.Node, stored []byte, idAt, shift int) []secRe
 			}
 			sec += kw
 		}
-		out = append(out, secReq{Attr: "BODY.PEEK[" + sec + "]", Name: "BODY[" + sec + "]", Want: want, Path: append([]int{}, path...), Spec: spec, Exists: true})
+		out = append(out, secReq{Attr: "BODY.PEEK[" + sec + "]", Name: "BODY[" + sec + "]", Want: want, Path: append([]int{}, path...), Spec: spec, Exists: true, A: w.a, B: w.b})
 	}
 	// top level: the header contains the ID line
 	hdrStart := tree.HStart
-	add(nil, "HEADER", stored[hdrStart:pos(tree.BStart)], "SpHeader")
+	add(nil, "HEADER", rng{hdrStart, pos(tree.BStart)}, "SpHeader")
 	add(nil, "TEXT", sl(tree.BStart, tree.End), "SpText")
 	var rec func(n *mimegen.Node, path []int)
 	// n: the entity whose parts are numbered below path (a message: top level or embedded)
@@ -251,7 +254,7 @@ var reIDLine = regexp.MustCompile(`^X-Pm-Gluon-Id: ([0-9a-fA-F-]{36})\r\n`)
 
 // ---------- ct table for the model (answers of mime.ParseMediaType through the public API) ----------
 
-func ctTable(lit []byte) string {
+func ctTable(lit []byte, name string) string {
 	var rows []string
 	seen := map[string]bool{}
 	var visit func(sec *rfc822.Section, depth int)
@@ -266,14 +269,16 @@ func ctTable(lit []byte) string {
 				k, b = 2, params["boundary"]
 			}
 		}
-		h := string(sec.Header())
+		hb := sec.Header()
+		h := string(hb)
 		if !seen[h] && k != 0 {
 			seen[h] = true
 			kind := "CtMessage"
 			if k == 2 {
 				kind = "(CtMultipart " + common.CoqBytes([]byte(b)) + ")"
 			}
-			rows = append(rows, "("+common.CoqBytes([]byte(h))+", "+kind+")")
+			a := cap(lit) - cap(hb)
+			rows = append(rows, fmt.Sprintf("(slice %s %d %d, %s)", name, a, a+len(hb), kind))
 		}
 		return k
 	}
@@ -420,9 +425,11 @@ func run(ctx *common.Ctx) error {
 		return fmt.Errorf("select: %v %v", err, r.Text)
 	}
 	var lines []string
+	var defs strings.Builder // literals and media-type tables, defined once per message
 	id := 0
 	nextID := func() int { id++; return id }
 	modelCases := 0
+	fieldCases := 0
 	seenFail := map[string]bool{}
 	fail := func(canon, detail string, cs interface{}) {
 		if !seenFail[canon] {
@@ -475,7 +482,9 @@ func run(ctx *common.Ctx) error {
 		if big {
 			res.Count("message-across-store-block")
 		}
-		small := !big && ascii && len(msg) <= 420 && modelCases < 800
+		small := !big && ascii && len(msg) <= 420 && modelCases < 700 && defs.Len() < 60000
+		L := fmt.Sprintf("L%d", seq)
+		T := fmt.Sprintf("T%d", seq)
 
 		// ---- BODY[], RFC822, RFC822.SIZE, HEADER, TEXT ----
 		ctx.Current(fmt.Sprintf("FETCH BODY[] %s", shape), info("BODY[] RFC822 RFC822.SIZE"))
@@ -519,12 +528,15 @@ func run(ctx *common.Ctx) error {
 		if !bytes.Equal(fr.Items[6].Lit, stored) {
 			fail("RFC822-MISMATCH "+shape, "RFC822 differs from BODY[]", info("RFC822"))
 		}
-		ct := ""
 		if small {
-			ct = ctTable(stored)
-			lines = append(lines, fmt.Sprintf("CSplice %d %s %s %s", nextID(), common.CoqBytes(msg), common.CoqBytes(idVal), common.CoqBytes(stored)))
-			lines = append(lines, fmt.Sprintf("CSize %d %s %s %d", nextID(), common.CoqBytes(stored), fr.Items[1].Text, len(stored)))
-			lines = append(lines, fmt.Sprintf("CSection %d %s %s [] SpAll (Some %s)", nextID(), common.CoqBytes(stored), ct, common.CoqBytes(stored)))
+			if cap(stored) != len(stored) {
+				stored = append(make([]byte, 0, len(stored)), stored...)
+			}
+			fmt.Fprintf(&defs, "Definition %s : bytes := %s.\nDefinition %s : list (bytes * ctype) := %s.\n", L, common.CoqBytes(stored), T, ctTable(stored, L))
+			vStart := idAt + len("X-Pm-Gluon-Id: ")
+			lines = append(lines, fmt.Sprintf("CSplice %d (slice %s 0 %d ++ skipn %d %s) (slice %s %d %d) %s", nextID(), L, idAt, idAt+shift, L, L, vStart, vStart+len(idVal), L))
+			lines = append(lines, fmt.Sprintf("CSize %d %s %s %d", nextID(), L, fr.Items[1].Text, len(stored)))
+			lines = append(lines, fmt.Sprintf("CSection %d %s %s [] SpAll (Some %s)", nextID(), L, T, L))
 			modelCases += 3
 		}
 
@@ -577,8 +589,8 @@ func run(ctx *common.Ctx) error {
 				if len(q.Want) > 0 && len(q.Want) < len(stored) {
 					res.Nontrivial(fmt.Sprintf("%d:%s", seq, q.Attr))
 				}
-				if small && modelCases < 800 {
-					lines = append(lines, fmt.Sprintf("CSection %d %s %s %s %s (Some %s)", nextID(), common.CoqBytes(stored), ct, coqPath(q.Path), q.Spec, common.CoqBytes(got.Lit)))
+				if small {
+					lines = append(lines, fmt.Sprintf("CSection %d %s %s %s %s (Some (slice %s %d %d))", nextID(), L, T, coqPath(q.Path), q.Spec, L, q.A, q.B))
 					modelCases++
 				}
 			}
@@ -598,8 +610,8 @@ func run(ctx *common.Ctx) error {
 			res.Evaluations++
 			if f1.Status == "OK" && len(f1.Items) > 0 {
 				fail("NONEXISTENT-PART-ANSWERED "+shape, attr+" answered "+short(f1.Items[0].Lit), info(attr))
-			} else if small && modelCases < 800 {
-				lines = append(lines, fmt.Sprintf("CSection %d %s %s %s SpBody None", nextID(), common.CoqBytes(stored), ct, coqPath(np)))
+			} else if small {
+				lines = append(lines, fmt.Sprintf("CSection %d %s %s %s SpBody None", nextID(), L, T, coqPath(np)))
 				modelCases++
 			}
 		}
@@ -666,26 +678,27 @@ func run(ctx *common.Ctx) error {
 					continue
 				}
 				res.Nontrivial(fmt.Sprintf("%d:fields:%s", seq, fl))
-				if small && modelCases < 800 {
+				if small && fieldCases < 60 {
+					fieldCases += 2
 					fs := make([]string, len(fields))
 					for i, f := range fields {
 						fs[i] = common.CoqBytes([]byte(f))
 					}
 					cf := "[" + strings.Join(fs, "; ") + "]"
-					lines = append(lines, fmt.Sprintf("CSection %d %s %s [] (SpFields false %s) (Some %s)", nextID(), common.CoqBytes(stored), ct, cf, common.CoqBytes(fr.Items[0].Lit)))
-					lines = append(lines, fmt.Sprintf("CSection %d %s %s [] (SpFields true %s) (Some %s)", nextID(), common.CoqBytes(stored), ct, cf, common.CoqBytes(fr.Items[1].Lit)))
+					lines = append(lines, fmt.Sprintf("CSection %d %s %s [] (SpFields false %s) (Some %s)", nextID(), L, T, cf, common.CoqBytes(fr.Items[0].Lit)))
+					lines = append(lines, fmt.Sprintf("CSection %d %s %s [] (SpFields true %s) (Some %s)", nextID(), L, T, cf, common.CoqBytes(fr.Items[1].Lit)))
 					modelCases += 2
 				}
 			}
 		}
 
 		// ---- partials (sums that fit into int64; overflowing sums go to the child process below) ----
-		L := uint64(len(stored))
-		offs := []uint64{0, 1, L / 2, L - 1, L, L + 1, 1 << 31, uint64(rng.Pick(len(stored) + 1))}
-		cnts := []uint64{1, 2, L / 2, L - 1, L, L + 1, 1 << 31, uint64(rng.Pick(len(stored)) + 1)}
+		SL := uint64(len(stored))
+		offs := []uint64{0, 1, SL / 2, SL - 1, SL, SL + 1, 1 << 31, uint64(rng.Pick(len(stored) + 1))}
+		cnts := []uint64{1, 2, SL / 2, SL - 1, SL, SL + 1, 1 << 31, uint64(rng.Pick(len(stored)) + 1)}
 		if big {
-			offs = []uint64{0, 262143, 262144, 262145, L - 1}
-			cnts = []uint64{1, 3, 262144, L}
+			offs = []uint64{0, 262143, 262144, 262145, SL - 1}
+			cnts = []uint64{1, 3, 262144, SL}
 		}
 		nPart := 6
 		if big {
@@ -699,7 +712,7 @@ func run(ctx *common.Ctx) error {
 			}
 			spec := fmt.Sprintf("%d.%d", o, n)
 			attr := "BODY.PEEK[]<" + spec + ">"
-			ctx.Current("FETCH "+attr+fmt.Sprintf(" len=%d", L), info(attr))
+			ctx.Current("FETCH "+attr+fmt.Sprintf(" len=%d", SL), info(attr))
 			fr, err := fetch(c, seq, attr)
 			if err != nil {
 				return err
@@ -707,18 +720,22 @@ func run(ctx *common.Ctx) error {
 			res.Evaluations++
 			want := clip(stored, o, n)
 			if fr.Status != "OK" || !fr.Parsed || len(fr.Items) != 1 {
-				fail(fmt.Sprintf("PARTIAL-NOT-ANSWERED offset%s count%s", rel(o, L), rel(n, L)), fmt.Sprintf("%s: status=%s", attr, fr.Status), info(attr))
+				fail(fmt.Sprintf("PARTIAL-NOT-ANSWERED offset%s count%s", rel(o, SL), rel(n, SL)), fmt.Sprintf("%s: status=%s", attr, fr.Status), info(attr))
 				continue
 			}
 			if fr.Items[0].Name != fmt.Sprintf("BODY[]<%d>", o) || !bytes.Equal(fr.Items[0].Lit, want) {
-				fail(fmt.Sprintf("PARTIAL-NOT-SLICE offset%s count%s", rel(o, L), rel(n, L)), fmt.Sprintf("%s on %d bytes: item %s %s, want %s", attr, L, fr.Items[0].Name, short(fr.Items[0].Lit), short(want)), info(attr))
+				fail(fmt.Sprintf("PARTIAL-NOT-SLICE offset%s count%s", rel(o, SL), rel(n, SL)), fmt.Sprintf("%s on %d bytes: item %s %s, want %s", attr, SL, fr.Items[0].Name, short(fr.Items[0].Lit), short(want)), info(attr))
 				continue
 			}
 			if len(want) > 0 && len(want) < len(stored) {
 				res.Nontrivial(fmt.Sprintf("%d:%s", seq, attr))
 			}
-			if small && modelCases < 800 {
-				lines = append(lines, fmt.Sprintf("CPartial %d %s %d %d %s", nextID(), common.CoqBytes(stored), o, n, common.CoqBytes(fr.Items[0].Lit)))
+			if small {
+				a := o
+				if a > SL {
+					a = SL
+				}
+				lines = append(lines, fmt.Sprintf("CPartial %d %s %d %d (slice %s %d %d)", nextID(), L, o, n, L, a, a+uint64(len(want))))
 				modelCases++
 			}
 		}
@@ -752,13 +769,15 @@ func run(ctx *common.Ctx) error {
 		}
 		res.Nontrivial("overflow:" + spec)
 		if len(whole) <= 400 {
-			lines = append(lines, fmt.Sprintf("CPartial %d %s %d %d %s", nextID(), common.CoqBytes(whole), o, n, common.CoqBytes(got)))
+			name := fmt.Sprintf("LO%d", modelCases)
+			fmt.Fprintf(&defs, "Definition %s : bytes := %s.\n", name, common.CoqBytes(whole))
+			lines = append(lines, fmt.Sprintf("CPartial %d %s %d %d %s", nextID(), name, o, n, common.CoqBytes(got)))
 			modelCases++
 		}
 	}
 
 	res.ModelCases = modelCases
-	return common.WriteCases(ctx.Out, "Run.RunC13", "case", lines, "")
+	return common.WriteCases(ctx.Out, "Run.RunC13", "case", lines, defs.String())
 }
 
 // rel classifies a number relative to the literal length (for canonical failure names).
